@@ -8,7 +8,8 @@ RULE = ("programs over serif's public operations, evaluated stepwise on the real
         "Families: known (one minimal program per recorded finding), struct (every structural/typed vector operation x 8 leaf "
         "dtypes x nullable x length 0/1/3), ops (every unary/binary/reflected operator and comparison x 5 operand forms x all "
         "pairs of leaf dtypes x nullable x length 0/1/3), names (tables with repeated/unsanitary/missing names through joins, "
-        "aggregates, table arithmetic), tree (random programs of depth <= 4 over 33 operations). "
+        "aggregates, table arithmetic), tree (random programs of depth <= 4 over 34 operations, one of them `misc`: unique, ~, "
+        "eomonth, pluck, head/tail, list << v, Vector.new, 8 broadcast methods/properties — judged by truthfulness alone). "
         "non-trivial = at least one non-leaf operation returned a vector or table")
 ASSUMPTIONS = [
     "elements are instances of exactly the pooled classes (None, bool, int, float, complex, str, bytes, date, datetime, list, tuple, "
@@ -49,14 +50,16 @@ LEVEL_TEXT = ("Proof: for a Lean model of every public operation that returns or
               "vector) are full theorems. Sampled, not proved: that the model's dtype rule is the code's - every node of every "
               "generated program is executed on the real code and the driver checks truthful(real tags, real dtype) and real "
               "dtype = model dtype; exhaustive over operators x operand forms x pairs of 8 leaf dtypes x nullable x length 0/1/3, "
-              "random programs of depth <= 4 beyond that. Three defects this check found (to_object, cast(date) of datetimes, None "
-              "into an object column) were repaired in /repo (cbd2cdb, bd89f49, cca3c72); the model mirrors the repaired code.")
+              "random programs of depth <= 4 beyond that. Four defects this check found (to_object, cast(date) of datetimes, None "
+              "into an object column, Vector.new(None, n, typesafe=True)) were repaired in /repo (cbd2cdb, bd89f49, cca3c72, 4f6bc66); the model mirrors the repaired code.")
 LEVEL_NOTE = ("Trusted: Lean kernel; axioms propext/Classical.choice/Quot.sound only; harness (observation of exact element types, "
               "oracles computed with Python's own operators, positions/permutations/join pairs/groups computed with plain Python); "
               "extract_consts (_PROMOTABLE and Vector._promote tabulated from the live code and proved equal to the model: "
               "promotable_table_agrees, promoteVec_table_agrees; validate_scalar / promote_with / infer_kind via C04). "
               "Assumptions: CastSound (Python constructors return instances of the class called); elements are exact instances of "
-              "the pooled classes; nested vectors, @, unique, pluck, __invert__, method proxies, rename, Vector.new are not "
-              "modelled; `_Date` dispatch is modelled by the current dtype kind (a date vector promoted in place to datetime is "
+              "the pooled classes; unique, pluck, ~, eomonth, head/tail, `list << v`, Vector.new and the broadcast str/int/float/date "
+              "methods and properties have no dtype rule in the model (Op.opaque: the model refuses, the real result is judged by "
+              "truthfulness alone — exhaustively over leaf dtypes x nullable x length 0/1/3 and inside random programs); nested "
+              "vectors, @ and rename are not modelled; `_Date` dispatch is modelled by the current dtype kind (a date vector promoted in place to datetime is "
               "still a _Date object: such steps are judged by truthfulness only). The outputs of other checks' generators are not "
               "fed through this check (DESIGN 5.C03 X(iii)): the table operations are generated here instead.")
